@@ -554,6 +554,8 @@ def run(ctx):
     from props import c17_hist
     hist_job = c17_hist.Job(ctx)          # fresh-interpreter workers, concurrent with the streams below
     c17_hist.corpus_cases(ctx)
+    from props import c17_files
+    c17_files.corpus_cases(ctx)
     reqs = []
     cases = []
     import time
@@ -566,7 +568,6 @@ def run(ctx):
     lap('leaves')
     cases += stream_linecode_names(ctx, reqs)
     lap('linecode+names')
-    from props import c17_files
     cases += c17_files.stream_scriptparse(ctx, reqs)
     lap('scriptparse')
     stream_known(ctx)
